@@ -1,26 +1,32 @@
 // Layer I: protocol environment (rely) and guarantee log.  Included into
-// multiqueue::verif_contracts through mq_env.rs.  See DESIGN.md §3.3.
+// multiqueue::verif_contracts through mq_env.rs.  See DESIGN.md §3.3 and §14.
 //
 // The function under proof runs on the real queue memory.  Before each of its shared-memory
-// operations `env_protocol` may perform up to ENV_BUDGET abstract actions of OTHER protocol
-// participants (each an atomic step of the protocol, applied to the same real memory); after each
-// of its own writes `guarantee_log` checks that the write is an instance of the guarantee relation.
-// Own-handle exclusivity (nobody else uses MY handle) is what `!Sync` (C19) licenses.
+// operations (fences excepted) `env_protocol` may perform ONE abstract action of another protocol
+// participant, up to ENV_BUDGET per call; after each of its own writes `guarantee_log` checks that the
+// write is an instance of the guarantee relation.  Every action is a whole protocol step applied to
+// the same real memory.  Own-handle exclusivity (nobody else uses MY handle) is what `!Sync` (C19)
+// licenses.  The action code is deliberately straight-line and works on addresses cached by
+// `env_reset`: CBMC inlines it at every access point of the function under proof.
 
 // action kinds (bits in ENV_ENABLED, indices in ENV_TAKEN)
-pub const A_CLAIM: u32 = 0; // another sender claims the next count (head CAS)
-pub const A_PUBLISH: u32 = 1; // a claimed slot gets its value and tag
-pub const A_CONSUME: u32 = 2; // another consumer advances a stream position (sibling on my stream, or any other stream)
-pub const A_PIN: u32 = 3; // a sibling broadcast consumer pins+validates / unpins a slot
-pub const A_SENDER: u32 = 4; // another sender handle is cloned / dropped
-pub const A_CACHE: u32 = 5; // another sender refreshes the cached tail
-pub const A_CONSUMER: u32 = 6; // a sibling consumer handle of my stream is cloned / dropped
+pub const A_PUBLISH: u32 = 0; // another sender claims the next count and publishes a value (claim + write + tag)
+pub const A_CONSUME: u32 = 1; // another consumer finishes a receive: a stream position advances by one
+pub const A_PIN: u32 = 2; // a sibling broadcast consumer pins+validates / unpins a slot
+pub const A_SENDER: u32 = 3; // another sender handle is cloned / dropped
+pub const A_CACHE: u32 = 4; // another sender refreshes the cached tail
+pub const A_CONSUMER: u32 = 5; // a sibling consumer handle of my stream is cloned / dropped
+pub const A_CLAIM: u32 = 6; // (kept for the catalogue; folded into A_PUBLISH)
 
-// ghost world of the environment
+pub static mut ENV_PER_POINT: usize = 1;
 pub static mut G_ME_SENDER: bool = false; // the function under proof runs on a sender handle
 pub static mut G_MY_STREAM: usize = usize::MAX; // index of the stream my consumer handle reads (or MAX)
-pub static mut G_PENDING: [bool; NMAX] = [false; NMAX]; // slot claimed by an env sender, not yet published
-pub static mut G_PEND_COUNT: [usize; NMAX] = [0; NMAX];
+pub static mut G_MY_READER: usize = 0; // address of my Reader handle
+pub static mut G_K: usize = 0; // number of streams
+pub static mut G_POS_CELL: [usize; MAXS] = [0; MAXS]; // address of each stream's position counter
+pub static mut G_CONS_CELL: usize = 0; // address of my stream's consumer count
+pub static mut G_MY_POS_CELL: usize = 0; // address of my stream's position counter
+pub static mut G_HEAD_CELL: usize = 0;
 pub static mut G_ENV_VPIN: [usize; NMAX] = [0; NMAX]; // validated pins held by env consumers
 pub static mut G_MY_PIN: [usize; NMAX] = [0; NMAX]; // my pins
 pub static mut G_MY_VALID: [bool; NMAX] = [false; NMAX]; // my pin on that slot passed the position re-check
@@ -35,6 +41,25 @@ pub static mut G_MY_COMMIT_VAL: usize = 0;
 pub static mut G_MY_COMMIT_PUBLISHED: bool = false;
 pub static mut G_MY_TAG_STORES: usize = 0;
 
+/// serial numbers of payload instances written by the environment: one per slot
+pub const ENV_SER_BASE: usize = 12;
+/// does slot s currently hold an instance written by the environment (serial ENV_SER_BASE+s) rather
+/// than the generator's (serial s)?
+pub static mut G_SLOT_ENV: [bool; NMAX] = [false; NMAX];
+
+// NOTE on style: CBMC lowers every array / heap access with a SYMBOLIC index through its array theory,
+// whose post-processing explodes when such accesses sit at every access point of the function under
+// proof.  All environment and guarantee code therefore finds the slot / stream with a loop over the
+// CONCRETE indices and touches memory only under `if s == slot`.
+
+unsafe fn mark_slot_instance(s: usize, st: u8) {
+    if G_SLOT_ENV[s] {
+        pay::STATE[ENV_SER_BASE + s] = st;
+    } else {
+        pay::STATE[s] = st;
+    }
+}
+
 unsafe fn env_reset<RW: QueueRW<Pay>>(w: &World<RW>, mpmc: bool, budget: usize, enabled: u32) {
     ENV_Q = &w.q.inner as *const MultiQueue<RW, Pay> as usize;
     ENV_MPMC = mpmc;
@@ -47,9 +72,19 @@ unsafe fn env_reset<RW: QueueRW<Pay>>(w: &World<RW>, mpmc: bool, budget: usize, 
     G_MY_CLAIMS = 0;
     G_MY_COMMITS = 0;
     G_MY_TAG_STORES = 0;
+    G_K = w.a.k;
+    G_HEAD_CELL = w.q.head.vf_cell_addr();
+    let mut i = 0;
+    while i < w.a.k {
+        G_POS_CELL[i] = match &w.rd[i] {
+            Some(r) => r.vf_pos_cell_addr(),
+            None => 0,
+        };
+        i += 1;
+    }
     let mut s = 0;
     while s < w.a.n {
-        G_PENDING[s] = false;
+        G_SLOT_ENV[s] = false;
         G_ENV_VPIN[s] = 0;
         G_MY_PIN[s] = 0;
         G_MY_VALID[s] = false;
@@ -59,54 +94,69 @@ unsafe fn env_reset<RW: QueueRW<Pay>>(w: &World<RW>, mpmc: bool, budget: usize, 
     }
 }
 
+unsafe fn env_set_me_reader(i: usize, reader: &Reader) {
+    G_MY_STREAM = i;
+    G_MY_READER = reader as *const Reader as usize;
+    G_CONS_CELL = reader.vf_consumers_addr();
+    G_MY_POS_CELL = reader.vf_pos_cell_addr();
+}
+
 fn enabled(a: u32) -> bool {
     unsafe { ENV_ENABLED & (1 << a) != 0 }
 }
 
-/// One environment turn: up to ENV_BUDGET actions, each chosen by the oracle.
+#[inline(always)]
+unsafe fn cell(addr: usize) -> &'static AtomicUsize {
+    &*(addr as *const AtomicUsize)
+}
+
+/// One environment turn: at most one action, chosen by the oracle.
 unsafe fn env_protocol<RW: QueueRW<Pay>>(q: *const MultiQueue<RW, Pay>, kind: u8, addr: usize) {
+    // a fence is not an observation point under sequential consistency
+    if kind == K_FENCE {
+        return;
+    }
     let q = &*q;
     let n = q.capacity as usize;
-    // at most two actions per access point keep the formula small; the budget bounds the total
-    let mut turn = 0;
-    while turn < 2 {
-        if ENV_BUDGET == 0 || !rt::oracle_bool() {
-            break;
-        }
+    if ENV_BUDGET > 0 && rt::oracle_bool() {
         let act = rt::oracle_u8() as u32;
-        rt::assume(act < 7 && enabled(act));
-        let done = match act {
-            A_CLAIM => env_claim(q, n),
-            A_PUBLISH => env_publish_pending(q, n),
-            A_CONSUME => env_consume(q, n),
-            A_PIN => env_pin(q, n),
-            A_SENDER => env_sender(q),
-            A_CACHE => env_cache(q),
-            _ => env_consumer(q),
+        rt::assume(act < 6 && enabled(act));
+        let done = if act == A_PUBLISH {
+            env_publish_one(q, n)
+        } else if act == A_CONSUME {
+            env_consume(q, n)
+        } else if act == A_PIN {
+            env_pin(q, n)
+        } else if act == A_SENDER {
+            env_sender(q)
+        } else if act == A_CACHE {
+            env_cache(q)
+        } else {
+            env_consumer()
         };
         // an action that is not enabled in this state is not a move
         rt::assume(done);
         ENV_BUDGET -= 1;
-        ENV_TAKEN[act as usize] += 1;
-        turn += 1;
-    }
-    // my validating position load (shared broadcast consumer): it will read the position as it is now
-    if kind == K_LOAD && G_MY_STREAM != usize::MAX {
-        let lv = q.tail.vf_view();
-        if G_MY_STREAM < lv.k && addr == my_pos_cell_addr(q) {
-            let p = lv.pos[G_MY_STREAM];
-            let s = p & (n - 1);
-            if G_MY_PIN[s] > 0 && (*q.data.add(s)).wraps.peek() == p {
-                G_MY_VALID[s] = true;
-            }
+        if act == A_PUBLISH {
+            ENV_TAKEN[0] += 1;
+        } else if act == A_CONSUME {
+            ENV_TAKEN[1] += 1;
+        } else {
+            ENV_TAKEN[2] += 1;
         }
     }
-}
-
-unsafe fn my_pos_cell_addr<RW: QueueRW<Pay>>(q: &MultiQueue<RW, Pay>) -> usize {
-    let lv = q.tail.vf_view();
-    // ReaderPos { pos_data: CountedIndex { val, mask } }: the counter cell is the first field
-    ReadCursor::vf_pos_cell_of(lv.pos_ptr[G_MY_STREAM])
+    // my validating position load (shared broadcast consumer): it will read the position as it is now
+    if kind == K_LOAD && G_MY_STREAM != usize::MAX && addr == G_MY_POS_CELL {
+        let p = cell(addr).peek();
+        let slot = p & (n - 1);
+        let mut s = 0;
+        while s < n {
+            if s == slot && G_MY_PIN[s] > 0 && (*q.data.add(s)).wraps.peek() == p {
+                G_MY_VALID[s] = true;
+            }
+            s += 1;
+        }
+    }
 }
 
 unsafe fn other_writers<RW: QueueRW<Pay>>(q: &MultiQueue<RW, Pay>) -> usize {
@@ -118,127 +168,147 @@ unsafe fn other_writers<RW: QueueRW<Pay>>(q: &MultiQueue<RW, Pay>) -> usize {
     }
 }
 
-unsafe fn true_min<RW: QueueRW<Pay>>(q: &MultiQueue<RW, Pay>) -> (usize, usize) {
-    env_min_pos(q)
-}
-
-unsafe fn any_pending(n: usize) -> bool {
-    let mut s = 0;
-    let mut r = false;
-    while s < n {
-        if G_PENDING[s] {
-            r = true;
+/// minimum stream position (head if there is no stream)
+unsafe fn true_min<RW: QueueRW<Pay>>(q: &MultiQueue<RW, Pay>) -> usize {
+    let mut m = q.head.vf_peek();
+    let mut i = 0;
+    while i < G_K {
+        let p = cell(G_POS_CELL[i]).peek();
+        if p < m {
+            m = p;
         }
-        s += 1;
+        i += 1;
     }
-    r
+    m
 }
 
-/// Claim: an env sender takes the next count.  Enabled when an env sender exists, the window has
-/// room with respect to the TRUE minimum (a real writer's cached minimum is never ahead of it),
-/// and no validated pin protects the slot (a real writer saw the pin count at zero after the
-/// positions had moved past the slot, see DESIGN §3.3).
-unsafe fn env_claim<RW: QueueRW<Pay>>(q: &MultiQueue<RW, Pay>, n: usize) -> bool {
+unsafe fn any_pending(_n: usize) -> bool {
+    false
+}
+
+/// Publish: an env sender claims the next count and publishes a value.  Enabled when an env sender
+/// exists, the window has room with respect to the TRUE minimum (a real writer's cached minimum is
+/// never ahead of it), and no validated pin protects the slot (a real writer saw the pin count at
+/// zero after the positions had moved past the slot, see DESIGN §3.3).
+unsafe fn env_publish_one<RW: QueueRW<Pay>>(q: &MultiQueue<RW, Pay>, n: usize) -> bool {
     if other_writers(q) == 0 {
         return false;
     }
     let head = q.head.vf_peek();
-    let (min, k) = true_min(q);
-    if k > 0 && head - min >= n {
+    if G_K > 0 && head - true_min(q) >= n {
         return false;
     }
-    let s = head & (n - 1);
-    if G_ENV_VPIN[s] > 0 || (G_MY_PIN[s] > 0 && G_MY_VALID[s]) || G_PENDING[s] {
-        return false;
-    }
-    G_PENDING[s] = true;
-    G_PEND_COUNT[s] = head;
-    q.head.vf_poke(head + 1);
-    true
-}
-
-/// Publish: the env sender that claimed slot s writes its value, then the tag.
-unsafe fn env_publish_pending<RW: QueueRW<Pay>>(q: &MultiQueue<RW, Pay>, n: usize) -> bool {
-    let s = rt::oracle_usize();
-    rt::assume(s < n);
-    if !G_PENDING[s] {
-        return false;
-    }
-    let cell = &mut *q.data.add(s);
-    let old_tag = cell.wraps.peek();
+    let slot = head & (n - 1);
     let v = rt::oracle_usize();
-    if RW::do_drop() && !is_tagged(old_tag) {
-        let _old = ptr::read(&cell.val);
-        ptr::write(&mut cell.val, Pay::new(v));
-    } else {
-        ptr::write(&mut cell.val, Pay::new(v));
+    let mut ok = false;
+    let mut s = 0;
+    while s < n {
+        if s == slot && G_ENV_VPIN[s] == 0 && !(G_MY_PIN[s] > 0 && G_MY_VALID[s]) {
+            let c = &mut *q.data.add(s);
+            let old_tag = c.wraps.peek();
+            if RW::do_drop() && !is_tagged(old_tag) {
+                // the overwritten broadcast value is destroyed by the writer
+                mark_slot_instance(s, 2);
+            }
+            c.val.val = v;
+            c.val.ser = ENV_SER_BASE + s;
+            G_SLOT_ENV[s] = true;
+            pay::STATE[ENV_SER_BASE + s] = 1;
+            c.wraps.poke(head);
+            G_PUB_COUNT[s] = head;
+            G_PUB_VAL[s] = v;
+            ok = true;
+        }
+        s += 1;
     }
-    cell.wraps.poke(G_PEND_COUNT[s]);
-    G_PUB_COUNT[s] = G_PEND_COUNT[s];
-    G_PUB_VAL[s] = v;
-    G_PENDING[s] = false;
-    true
+    if ok {
+        q.head.vf_poke(head + 1);
+    }
+    ok
 }
 
 /// Consume: another consumer finishes a receive on stream j: position p -> p+1.  Enabled when the
 /// value at p is published; on MY stream only when a sibling handle exists.
 unsafe fn env_consume<RW: QueueRW<Pay>>(q: &MultiQueue<RW, Pay>, n: usize) -> bool {
-    let lv = q.tail.vf_view();
     let j = rt::oracle_usize();
-    rt::assume(j < lv.k);
-    if j == G_MY_STREAM && ReadCursor::vf_consumers_of_handle(G_MY_READER) < 2 {
+    rt::assume(j < G_K);
+    if j == G_MY_STREAM && cell(G_CONS_CELL).peek() < 2 {
         return false;
     }
-    let p = lv.pos[j];
-    let s = p & (n - 1);
-    let cell = &mut *q.data.add(s);
-    if cell.wraps.peek() != p {
-        return false;
-    }
-    if !RW::do_drop() {
-        // move-out flavour: the sibling takes the instance with it
-        if cell.val.ser < pay::MAXSER {
-            pay::STATE[cell.val.ser] = 2;
+    let mut ok = false;
+    let mut jj = 0;
+    while jj < G_K {
+        if jj == j {
+            let pc = cell(G_POS_CELL[jj]);
+            let p = pc.peek();
+            let slot = p & (n - 1);
+            let mut s = 0;
+            while s < n {
+                if s == slot && (*q.data.add(s)).wraps.peek() == p {
+                    if !RW::do_drop() {
+                        // move-out flavour: the sibling takes the instance with it
+                        mark_slot_instance(s, 2);
+                    }
+                    ok = true;
+                }
+                s += 1;
+            }
+            if ok {
+                pc.poke(p + 1);
+            }
         }
+        jj += 1;
     }
-    ReadCursor::vf_set_pos_of(lv.pos_ptr[j], p + 1);
-    true
+    ok
 }
 
-/// Pin / unpin by a sibling broadcast consumer of some stream: pin is counted only once validated
+/// Pin / unpin by a sibling broadcast consumer of some stream: a pin is counted only once validated
 /// (position still equal to the slot's count); unpin releases one.
 unsafe fn env_pin<RW: QueueRW<Pay>>(q: &MultiQueue<RW, Pay>, n: usize) -> bool {
     if !RW::do_drop() {
         return false;
     }
-    let lv = q.tail.vf_view();
     let release = rt::oracle_bool();
+    let mut ok = false;
     if release {
-        let s = rt::oracle_usize();
-        rt::assume(s < n);
-        if G_ENV_VPIN[s] == 0 {
-            return false;
+        let slot = rt::oracle_usize();
+        rt::assume(slot < n);
+        let mut s = 0;
+        while s < n {
+            if s == slot && G_ENV_VPIN[s] > 0 {
+                G_ENV_VPIN[s] -= 1;
+                let rc = &(*q.refs.add(s)).refcnt;
+                rc.poke(rc.peek() - 1);
+                ok = true;
+            }
+            s += 1;
         }
-        G_ENV_VPIN[s] -= 1;
-        let rc = &(*q.refs.add(s)).refcnt;
-        rc.poke(rc.peek() - 1);
-        return true;
+        return ok;
     }
     let j = rt::oracle_usize();
-    rt::assume(j < lv.k);
-    let p = lv.pos[j];
-    let s = p & (n - 1);
-    if (*q.data.add(s)).wraps.peek() != p {
-        return false;
+    rt::assume(j < G_K);
+    let mut jj = 0;
+    while jj < G_K {
+        if jj == j {
+            let p = cell(G_POS_CELL[jj]).peek();
+            let slot = p & (n - 1);
+            let mut s = 0;
+            while s < n {
+                if s == slot && (*q.data.add(s)).wraps.peek() == p {
+                    G_ENV_VPIN[s] += 1;
+                    let rc = &(*q.refs.add(s)).refcnt;
+                    rc.poke(rc.peek() + 1);
+                    ok = true;
+                }
+                s += 1;
+            }
+        }
+        jj += 1;
     }
-    G_ENV_VPIN[s] += 1;
-    let rc = &(*q.refs.add(s)).refcnt;
-    rc.poke(rc.peek() + 1);
-    true
+    ok
 }
 
-/// Another sender handle is cloned (needs a live other sender) or dropped (needs no pending claim
-/// of its own: a claim is published inside the same call that made it).
+/// Another sender handle is cloned (needs a live other sender) or dropped.
 unsafe fn env_sender<RW: QueueRW<Pay>>(q: &MultiQueue<RW, Pay>) -> bool {
     let ow = other_writers(q);
     let up = rt::oracle_bool();
@@ -248,16 +318,7 @@ unsafe fn env_sender<RW: QueueRW<Pay>>(q: &MultiQueue<RW, Pay>) -> bool {
         }
         q.writers.poke(q.writers.peek() + 1);
     } else {
-        // every pending claim needs its sender alive
-        let mut pend = 0;
-        let mut s = 0;
-        while s < q.capacity as usize {
-            if G_PENDING[s] {
-                pend += 1;
-            }
-            s += 1;
-        }
-        if ow == 0 || ow - 1 < pend {
+        if ow == 0 {
             return false;
         }
         q.writers.poke(q.writers.peek() - 1);
@@ -270,7 +331,7 @@ unsafe fn env_cache<RW: QueueRW<Pay>>(q: &MultiQueue<RW, Pay>) -> bool {
     if other_writers(q) == 0 {
         return false;
     }
-    let (min, _k) = true_min(q);
+    let min = true_min(q);
     let tc = q.tail_cache.peek();
     let v = rt::oracle_usize();
     rt::assume(v >= tc && v <= min);
@@ -278,29 +339,28 @@ unsafe fn env_cache<RW: QueueRW<Pay>>(q: &MultiQueue<RW, Pay>) -> bool {
     true
 }
 
-/// A sibling consumer handle of MY stream is cloned / dropped (count stays >= 1 for me, and can
-/// only rise when a sibling exists or ... my own handle cannot be cloned by anybody else).
-unsafe fn env_consumer<RW: QueueRW<Pay>>(_q: &MultiQueue<RW, Pay>) -> bool {
+/// A sibling consumer handle of MY stream is cloned / dropped (my own handle cannot be cloned by
+/// anybody else, so the count can only rise when a sibling exists, and never falls below one).
+unsafe fn env_consumer() -> bool {
     if G_MY_STREAM == usize::MAX {
         return false;
     }
-    let c = ReadCursor::vf_consumers_of_handle(G_MY_READER);
+    let cc = cell(G_CONS_CELL);
+    let c = cc.peek();
     let up = rt::oracle_bool();
     if up {
         if c < 2 || c >= 3 {
             return false;
         }
-        ReadCursor::vf_set_consumers_of_handle(G_MY_READER, c + 1);
+        cc.poke(c + 1);
     } else {
         if c < 2 {
             return false;
         }
-        ReadCursor::vf_set_consumers_of_handle(G_MY_READER, c - 1);
+        cc.poke(c - 1);
     }
     true
 }
-
-pub static mut G_MY_READER: usize = 0; // address of my Reader handle
 
 /// Guarantee: every shared write of the function under proof must be one of the protocol's actions
 /// with its enabling condition true at that instant.
@@ -315,27 +375,49 @@ unsafe fn guarantee_log(kind: u8, addr: usize, old: usize, new: usize) {
 unsafe fn guarantee<RW: QueueRW<Pay>>(q: *const MultiQueue<RW, Pay>, kind: u8, addr: usize, old: usize, new: usize) {
     let q = &*q;
     let n = q.capacity as usize;
-    if addr == q.head.vf_cell_addr() {
+    if addr == G_HEAD_CELL {
         // Claim by me
         assert!(G_ME_SENDER, "only a sender writes the claim counter");
         assert!(new == old + 1, "C01/C02: a claim advances the counter by exactly one");
         if kind != K_CAS {
             assert!(other_writers(q) == 0, "C01/C12: plain store to the claim counter while another sender is alive");
         }
-        let (min, k) = true_min(q);
-        assert!(k == 0 || old - min < n, "C03: claim while N values are unconsumed by the slowest stream (window violated at the claim instant)");
-        let s = old & (n - 1);
-        assert!(G_ENV_VPIN[s] == 0, "C04: claim of a slot that a consumer holds a validated pin on");
-        assert!(!G_PENDING[s], "C01: claim of a slot another sender is still writing");
+        assert!(G_K == 0 || old - true_min(q) < n, "C03: claim while N values are unconsumed by the slowest stream (window violated at the claim instant)");
+        let slot = old & (n - 1);
+        let mut s = 0;
+        while s < n {
+            if s == slot {
+                assert!(G_ENV_VPIN[s] == 0, "C04: claim of a slot that a consumer holds a validated pin on");
+            }
+            s += 1;
+        }
         G_MY_CLAIMS += 1;
         G_MY_CLAIM_COUNT = old;
         return;
     }
     if addr == &q.tail_cache as *const AtomicUsize as usize {
-        let (min, _k) = true_min(q);
-        assert!(new <= min, "C03: cached tail ahead of the slowest stream");
+        assert!(new <= true_min(q), "C03: cached tail ahead of the slowest stream");
         if kind != K_CAS {
             assert!(other_writers(q) == 0, "C03/C12: plain store to the cached tail while another sender is alive");
+        }
+        return;
+    }
+    if G_MY_STREAM != usize::MAX && addr == G_MY_POS_CELL {
+        // Consume by me
+        assert!(new == old + 1, "C01: a commit advances the cursor by exactly one");
+        if kind != K_CAS {
+            assert!(cell(G_CONS_CELL).peek() == 1, "C01/C12: plain store to a cursor that another consumer shares");
+        }
+        let slot = old & (n - 1);
+        G_MY_COMMITS += 1;
+        G_MY_COMMIT_COUNT = old;
+        let mut s = 0;
+        while s < n {
+            if s == slot {
+                G_MY_COMMIT_PUBLISHED = G_PUB_COUNT[s] == old && (*q.data.add(s)).wraps.peek() == old;
+                G_MY_COMMIT_VAL = G_PUB_VAL[s];
+            }
+            s += 1;
         }
         return;
     }
@@ -363,18 +445,5 @@ unsafe fn guarantee<RW: QueueRW<Pay>>(q: *const MultiQueue<RW, Pay>, kind: u8, a
             return;
         }
         s += 1;
-    }
-    if G_MY_STREAM != usize::MAX && addr == my_pos_cell_addr(q) {
-        // Consume by me
-        assert!(new == old + 1, "C01: a commit advances the cursor by exactly one");
-        if kind != K_CAS {
-            assert!(ReadCursor::vf_consumers_of_handle(G_MY_READER) == 1, "C01/C12: plain store to a cursor that another consumer shares");
-        }
-        let sl = old & (n - 1);
-        G_MY_COMMITS += 1;
-        G_MY_COMMIT_COUNT = old;
-        G_MY_COMMIT_PUBLISHED = G_PUB_COUNT[sl] == old && (*q.data.add(sl)).wraps.peek() == old;
-        G_MY_COMMIT_VAL = G_PUB_VAL[sl];
-        return;
     }
 }
